@@ -19,6 +19,7 @@ pub enum CF {
     TinyVar = 9,
     WrapU64 = 10,
     BigPause = 11,
+    LongStuck = 12,
 }
 
 pub const ALL_CF: [CF; 12] = [
@@ -51,9 +52,13 @@ impl CF {
             CF::TinyVar => "tiny_var",
             CF::WrapU64 => "wrap_u64",
             CF::BigPause => "big_pause",
+            CF::LongStuck => "long_stuck",
         }
     }
     pub fn from_u8(x: u8) -> Option<CF> {
+        if x == CF::LongStuck as u8 {
+            return Some(CF::LongStuck);
+        }
         ALL_CF.iter().copied().find(|c| *c as u8 == x)
     }
 }
@@ -67,6 +72,9 @@ pub struct ClockCfg {
     pub rate_per_1000: u32,
     /// max length of a stuck stretch (bounded so the run makes progress)
     pub max_stretch: u32,
+    /// one very long stretch (thousands of readings) during which the clock ticks at a perfectly
+    /// constant rate: every measurement in it is stuck; it ends before the stuck cap
+    pub long_stuck: bool,
 }
 
 /// Returns the spec and the list of (reading index, fault kind) marks; the executor counts a
@@ -112,7 +120,19 @@ pub fn gen_clock(rng: &mut Prng, cfg: &ClockCfg) -> (ClockSpec, Vec<(u32, u8)>) 
     }
     let stretch_faults: Vec<CF> = cfg.faults.iter().copied().filter(|f| *f != CF::WrapU64).collect();
     let mut i = 0usize;
+    let long_at = if cfg.long_stuck { Some(rng.below(cfg.n.max(1) as u64 / 2 + 1) as usize) } else { None };
     while i < cfg.n {
+        if Some(i) == long_at {
+            marks.push((i as u32, CF::LongStuck as u8));
+            let len = rng.range(3_100, 9_000) as usize;
+            let d = if rng.chance(1, 4) { 0 } else { base + rng.below(amp) };
+            for _ in 0..len {
+                t = t.wrapping_add(d);
+                readings.push(t);
+            }
+            i += len;
+            continue;
+        }
         let fault_here = !stretch_faults.is_empty() && rng.below(1000) < cfg.rate_per_1000 as u64;
         if !fault_here {
             t = t.wrapping_add(base + rng.below(amp));
@@ -207,7 +227,7 @@ pub fn gen_clock(rng: &mut Prng, cfg: &ClockCfg) -> (ClockSpec, Vec<(u32, u8)>) 
                 readings.push(t);
                 i += 1;
             }
-            CF::WrapU64 => unreachable!(),
+            CF::WrapU64 | CF::LongStuck => unreachable!(),
         }
     }
     let spec = ClockSpec { readings, tail_key: rng.u64(), fork_skews: Vec::new() };
